@@ -312,6 +312,42 @@ def build_obj(ast):
     raise RuntimeError
 
 
+def build_obj_two_phase(ast, deferred: list):
+    """Like build_obj, but only part of the content is there at first; the
+    thunks in `deferred` complete it in place (setattr on the same objects,
+    list.extend on the same lists)."""
+    sd = side()
+    k = ast[0]
+    if k == "L" and len(ast[1]) >= 2:
+        items = [parse_setarg(x) for x in ast[1]]
+        lst = items[:1]
+        deferred.append(lambda: lst.extend(items[1:]))
+        return lst
+    if k == "M" and len(ast[1]) >= 1:
+        objs = [build_obj_two_phase(x, deferred) for x in ast[1]]
+        lst = objs[:1]
+        if len(objs) >= 2:
+            deferred.append(lambda: lst.extend(objs[1:]))
+        return lst
+    if k == "O":
+        cls = sd["cls_by_id"][ast[1]]
+        o = cls()
+        attrs = list(ast[2])
+        half = (len(attrs) + 1) // 2
+        for attr, v in attrs[:half]:
+            setattr(o, sd["names"][attr], build_obj_two_phase(v, deferred))
+        for attr, v in attrs[half:]:
+            deferred.append(lambda attr=attr, v=v: setattr(o, sd["names"][attr], build_obj(v)))
+        extra = [mk_avp(x) for x in ast[3]]
+        if issubclass(cls, Message):
+            for a in extra:
+                o.append_avp(a)
+        elif extra or hasattr(o, "additional_avps"):
+            o.additional_avps = extra
+        return o
+    return build_obj(ast)
+
+
 def show_obj(o, cls_id: int) -> str:
     """Attributes of a typed message / container as an FVal literal (fields in
     first-assignment order of the real object's __dict__)."""
@@ -493,12 +529,24 @@ def _real(line: str) -> str:
                 re_ = exc(e)
             return f"{cid} {hd} {body} RE {re_}"
         if cmd == "MSGENC":
-            h = MessageHeader(int(toks[1]), 0, int(toks[2]), int(toks[3]), int(toks[4]),
-                              int(toks[5]), int(toks[6]))
+            def hdr():
+                return MessageHeader(int(toks[1]), 0, int(toks[2]), int(toks[3]), int(toks[4]),
+                                     int(toks[5]), int(toks[6]))
             inner = toks[7][1:-1]
             avps = [mk_avp(x) for x in inner.split(",")] if inner else []
-            m = Message(h, avps)
-            return m.as_bytes().hex()
+            one = Message(hdr(), avps).as_bytes().hex()
+            # the same message built in two steps with an encoding in between
+            # (a message object is encoded, extended, encoded again)
+            avps2 = [mk_avp(x) for x in inner.split(",")] if inner else []
+            k = len(avps2) // 2
+            m2 = Message(hdr(), avps2[:k])
+            m2.as_bytes()
+            for a in avps2[k:]:
+                m2.append_avp(a)
+            two = m2.as_bytes().hex()
+            if two != one:
+                return f"STALE after-extension={two} fresh={one}"
+            return one
         if cmd == "FIND":
             m = Message.from_bytes(bytes.fromhex(toks[1]), plain_msg=True)
             if type(m) is not Message and isinstance(m, DefinedMessage):
@@ -515,12 +563,27 @@ def _real(line: str) -> str:
             return ";".join(outs)
         if cmd == "TYPED":
             ast, _ = parse_fval(toks[1])
-            o = build_obj(ast)
-            if isinstance(o, Message):
-                avps = o.avps
-            else:
-                avps = generate_avps_from_defs(o)
-            return "[" + ",".join(avpobj(a) for a in avps) + "]"
+
+            def gen(o):
+                avps = o.avps if isinstance(o, Message) else generate_avps_from_defs(o)
+                return "[" + ",".join(avpobj(a) for a in avps) + "]"
+            one = gen(build_obj(ast))
+            # the same object filled in two steps with a generation in between:
+            # attributes set later, lists extended in place, nested containers completed in place
+            deferred: list = []
+            o2 = build_obj_two_phase(ast, deferred)
+            try:
+                gen(o2)
+                if isinstance(o2, Message):
+                    o2.as_bytes()
+            except Exception:  # noqa
+                pass
+            for f in deferred:
+                f()
+            two = gen(o2)
+            if two != one:
+                return f"STALE after-completion={two} fresh={one}"
+            return one
         if cmd == "ASSIGN":
             cid = int(toks[1])
             cls = sd["cls_by_id"][cid]
